@@ -73,6 +73,14 @@ TraceLin == /\ IsEvent("lin") /\ UNCHANGED <<keys, h0>>
          known == \A f \in Features(p) : IsKingF(f) \/ f \in DOMAIN keys IN
      Obs(IF_(known /\ Model2(p) # r.ha, {<<"C11", "hash-is-not-the-xor-of-its-feature-keys", r.ha, Model2(p)>>}))
 
+\* two accepted boards whose positions differ in one to four elementary features (a right counted per colour AND wing)
+\* must not have the same hash
+TracePairH == /\ IsEvent("pairh") /\ UNCHANGED <<keys, h0>>
+  /\ LET r == Recs[l]  p == PosOf(r.a)  q == PosOf(r.o)
+         dist == Cardinality({s \in Sq : p.b[s] # q.b[s]}) + (IF p.stm # q.stm THEN 1 ELSE 0)
+                 + Cardinality({i \in 1..4 : p.cr[i] # q.cr[i]}) + (IF p.ep # q.ep THEN 1 ELSE 0)
+     IN Obs(IF_(dist >= 1 /\ dist <= 4 /\ r.ha = r.ho, {<<"C11", "boards-at-small-feature-distance-have-equal-hashes", dist, p.cr, q.cr>>}))
+
 \* the extracted table as the recorder summarises it must be exactly the validated keys
 TraceTable == /\ IsEvent("table") /\ UNCHANGED <<keys, h0>>
   /\ LET r == Recs[l]
@@ -89,7 +97,7 @@ TraceTable == /\ IsEvent("table") /\ UNCHANGED <<keys, h0>>
 TraceDecide == IsEvent("decide") /\ UNCHANGED <<keys, h0>> /\ Obs({})
 
 Init == l = 1 /\ nviol = 0 /\ keys = <<>> /\ h0 = Zero
-Next == TraceKey \/ TraceExtracted \/ TraceLin \/ TraceTable \/ TraceDecide
+Next == TraceKey \/ TraceExtracted \/ TraceLin \/ TraceTable \/ TraceDecide \/ TracePairH
 Spec == Init /\ [][Next]_vars
 Accepted == IF TLCGet("stats").diameter - 1 = NRecs THEN PrintT(<<"ACCEPTED-LINES", NRecs>>)
             ELSE PrintT(<<"STUCK-AT-LINE", TLCGet("stats").diameter, NRecs>>) /\ FALSE
